@@ -49,8 +49,8 @@ def _cands(cin):
     return {"res": "ok", "cands": [parse_combo(c) for c in cands]}
 
 
-def _route_model(cin):
-    key = (str(cin["split"]), tuple(cin["smap"]), tuple(cin["wmap"]))
+def _route_model(cin, zone="America/Chicago"):
+    key = (str(cin["split"]), tuple(cin["smap"]), tuple(cin["wmap"]), zone)
     if key not in _st["models"]:
         subs = {}
         for k, comp in enumerate(cin["split"]):
@@ -58,17 +58,17 @@ def _route_model(cin):
             subs[name] = docs.submodel(docs.coeffs("tidd", 10 * (k + 1)))
         over = {"season": {MONTHS[i]: SEASON_NAME[cin["smap"][i]] for i in range(12)},
                 "weekday_weekend": {DAYS[i]: {"wd": "weekday", "we": "weekend"}[cin["wmap"][i]] for i in range(7)}}
-        doc = docs.document(subs, tz="America/Chicago", profile="legacy", overrides=over)
+        doc = docs.document(subs, tz=zone, profile="legacy", overrides=over)
         _st["models"][key] = (docs.load(doc), list(subs.keys()))
     return _st["models"][key]
 
 
-def _route(cin):
+def _route(cin, zone="America/Chicago"):
     em = _st["em"]
-    model, names = _route_model(cin)
+    model, names = _route_model(cin, zone)
     pkey = (id(model), cin["y"])
     if pkey not in _st["preds"]:
-        idx = pd.date_range(pd.Timestamp("%d-01-01" % cin["y"], tz="America/Chicago"), pd.Timestamp("%d-12-31" % cin["y"], tz="America/Chicago"), freq="D")
+        idx = pd.date_range(pd.Timestamp("%d-01-01" % cin["y"], tz=zone), pd.Timestamp("%d-12-31" % cin["y"], tz=zone), freq="D")     # local midnights
         data = em.DailyReportingData(pd.DataFrame({"temperature": 50.0 + (np.arange(len(idx)) % 30), "observed": 10.0}, index=idx), is_electricity_data=False)
         _st["preds"][pkey] = model.predict(data, ignore_disqualification=True)
         if len(_st["preds"]) > 40:
@@ -118,6 +118,8 @@ def _select(cin):
 
 def realise(cin, variant):
     try:
+        if cin["kind"] == "route" and variant not in ("-", None, ""):
+            return _route(cin, variant)          # variant = the zone of the reporting data (and of the document)
         return {"cands": _cands, "route": _route, "select": _select}[cin["kind"]](cin)
     except Exception as ex:
         import traceback
